@@ -645,6 +645,11 @@ where
         if extension_degree != ExtensionDegree::try_from(first_proof.d1.len())? {
             return Err(ProofError::InvalidArgument("Inconsistent extension degree".to_string()));
         }
+        if g_base_vec.len() != extension_degree as usize {
+            return Err(ProofError::InvalidArgument(
+                "Number of G generator points does not match the extension degree".to_string(),
+            ));
+        }
         for (i, (statement, proof)) in statements.iter().zip(range_proofs.iter()).enumerate().skip(1) {
             if g_base_vec != statement.generators.g_bases() {
                 return Err(ProofError::InvalidArgument(
